@@ -273,9 +273,11 @@ def compress_case(ctx, m, params, label='generated'):
         ctx.count('reindex:' + ('with-merged-vertices' if merged_vertices else 'identity-conv'))
     # ---- volume
     pos1 = [tuple(F(float(v)) for v in p) for p in out.nodes.data]
-    vol1 = sum(fan_vol6(parse_flat(c), pos1) for c in out_cells)
-    ctx.count('volume:' + ('vertices-merged(not-compared)' if merged_vertices else 'no-vertex-merged'))
-    if not merged_vertices:
+    evaluable = used <= set(range(K))          # otherwise already reported as nodes:not-exactly-the-used-nodes
+    vol1 = sum(fan_vol6(parse_flat(c), pos1) for c in out_cells) if evaluable else None
+    ctx.count('volume:' + ('not-evaluable(face nodes out of range)' if not evaluable else
+                           'vertices-merged(not-compared)' if merged_vertices else 'no-vertex-merged'))
+    if evaluable and not merged_vertices:
         if vol1 != vol0:
             planar = not admits_angle_merge(raw_cells, pos0, params['cos_thresh'])
             ctx.fail('volume:changed-without-vertex-merge' + ('' if planar else ':faces-merged-across-an-angle'),
